@@ -1,8 +1,8 @@
 (* C07 - DFXP output is well-formed XML and internally consistent.
    Only statements closed by `exact`, with Print Assumptions, and non-vacuity examples. *)
 From Coq Require Import List ZArith Bool.
-From PV Require Import lib.Sx lib.Str lib.Result model.DfxpXml model.DfxpRegion model.DfxpDoc model.DfxpSkel spec.SpecXmlAttr spec.SpecXmlDoc.
-From PV Require Import proofs.XmlAttrFacts proofs.DfxpRegionFacts proofs.DfxpPayloadFacts proofs.DfxpDocFacts proofs.DfxpSkelFacts proofs.DfxpSkelRootFacts.
+From PV Require Import lib.Sx lib.Str lib.Result model.DfxpXml model.DfxpRegion model.DfxpDoc model.DfxpSkel model.DfxpSkelHead spec.SpecXmlAttr spec.SpecXmlDoc.
+From PV Require Import proofs.XmlAttrFacts proofs.DfxpRegionFacts proofs.DfxpPayloadFacts proofs.DfxpDocFacts proofs.DfxpSkelFacts proofs.DfxpSkelRootFacts proofs.DfxpSkelHeadFacts.
 Import ListNotations.
 Open Scope Z_scope.
 
@@ -163,6 +163,29 @@ Theorem C07_document_of_captions_root_in_ttml_namespace : forall legacy ids lang
 Proof. exact document_of_captions_root. Qed.
 Print Assumptions C07_document_of_captions_root_in_ttml_namespace.
 
+(* the <styling> section of the TREE (model/DfxpSkelHead.v: the <style> dictionaries DFXPWriter.write builds from the style
+   table - xml:id first, then the attributes of _recreate_style, an element only when it gets one): they are valid
+   dictionaries whenever ids and values are made of XML characters, and the ids / style= references READ FROM THEM are
+   exactly those of the traversal model `summarize` about which C07_doc_consistent_partial speaks (the body references
+   remain those of the model) *)
+Theorem C07_style_elems_ok : forall styles, (forall st, In st styles -> style_entry_ok st) ->
+  Forall (fun a => attrs_ok a []) (style_elems styles).
+Proof. exact style_elems_ok. Qed.
+Print Assumptions C07_style_elems_ok.
+Theorem C07_style_elems_are_the_summary : forall d,
+  elem_ids (style_elems (ds_styles d)) = s_style_ids (summarize d) /\
+  s_style_refs (summarize d) = elem_style_refs (style_elems (ds_styles d)) ++ body_style_refs (s_style_ids (summarize d)) d.
+Proof. exact style_elems_vs_summarize. Qed.
+Print Assumptions C07_style_elems_are_the_summary.
+(* the whole document with that <styling> section: no hypothesis on the style dictionaries any more, only XML characters *)
+Theorem C07_document_with_styling_wellformed : forall legacy table lang regions divs,
+  (forall st, In st table -> style_entry_ok st) -> forallb is_xml_char lang = true ->
+  Forall (fun a => attrs_ok a []) regions ->
+  Forall (fun dv => attrs_ok (fst dv) [] /\ Forall (caption_ok (fst (styling table))) (snd dv)) divs ->
+  exists evs, doc_parse (dfxp_document (doc_of_captions legacy (fst (styling table)) lang (style_elems table) regions divs)) = Some evs.
+Proof. exact document_with_styling. Qed.
+Print Assumptions C07_document_with_styling_wellformed.
+
 (* ---- non-vacuity ------------------------------------------------------------------------------------------------ *)
 Example C07_example_attr :
   attr_out (lit "a""b<c&d") = [39] ++ lit "a""b&lt;c&amp;d" ++ [39] /\
@@ -299,3 +322,20 @@ Example C07_example_document_machine_refuses :
   match doc_parse (lit "<a><b:c/></a>") with Some evs => ns_ok evs | None => true end = false /\
   match doc_parse (lit "<a xmlns:b=""u""><b:c b:d=""1"" xml:id=""2""/></a>") with Some evs => ns_ok evs | None => false end = true.
 Proof. vm_compute. repeat split; discriminate. Qed.
+
+(* wave 7: the <style> dictionaries of the tree for a style table with a class chain, an empty style, a style that yields
+   no attribute, markup characters in an id; and for no styles at all (the default style) *)
+Example C07_example_style_elems :
+  let table := [(lit "a&b", [(lit "color", lit "white")]); (lit "e", []); (lit "k2", [(lit "class", lit "a&b"); (lit "italics", lit "x")]);
+                (lit "n", [(lit "class", lit "zz")])] in
+  (forall st, In st table -> style_entry_ok st) /\
+  style_elems table = [[(lit "xml:id", lit "a&b"); (lit "tts:color", lit "white")];
+                       [(lit "xml:id", lit "k2"); (lit "style", lit "a&b"); (lit "tts:fontStyle", lit "italic")]] /\
+  elem_ids (style_elems table) = [lit "a&b"; lit "k2"] /\ elem_style_refs (style_elems table) = [lit "a&b"] /\
+  style_elems [] = [[(lit "xml:id", lit "default"); (lit "tts:fontFamily", lit "monospace"); (lit "tts:fontSize", lit "1c");
+                     (lit "tts:color", lit "white")]].
+Proof.
+  split; [|vm_compute; repeat split].
+  intros st [<-|[<-|[<-|[<-|[]]]]]; split; try reflexivity; cbn [snd map]; intros v Hv; cbn [In] in Hv;
+    repeat match goal with H : _ \/ _ |- _ => destruct H end; subst; try reflexivity; contradiction.
+Qed.
